@@ -1,5 +1,6 @@
 import WtfModel.Proofs.C03Search
 import WtfModel.Proofs.C03State
+import WtfModel.Proofs.C03Lower
 import WtfModel.Gen.C03
 import WtfModel.Gen.Bm25
 
@@ -208,6 +209,7 @@ theorem terms_bound (T : Tuning S) (idx : Index) (nq : Bytes) (o : Opts S) :
 
 /-! ## 5. the index and the re-ranker never lag behind the commands -/
 
+omit [ScoreOps S] in
 /-- In every state reachable from an empty database through any history of
     load / load-with-personal / UpdateDatabase / direct growth / search operations, the lazy rebuild
     at the top of SearchUniversal leaves: index = `build (current commands)` and re-ranker built from
@@ -225,14 +227,35 @@ theorem search_fresh (T : Tuning S) (mk : List Cmd → Bytes → List (Nat × S)
     DbState.answer T mk s q o = search { T with tfidf := DbState.rankerOf mk (some s.cmds) } s.cmds q o :=
   DbState.answer_of_inv T mk (DbState.inv_run T.ri DbState.inv_init ops hops) q o
 
+omit [ScoreOps S] in
 /-- The commands of a loaded / merged database have well-formed lower-case caches. -/
 theorem loaded_caches_wf (ri : RuneInfo) (s : DbState) :
     (∀ raw, ∀ c ∈ (DbState.step (S := S) ri s (.load raw)).cmds, WFCache ri c) ∧
     (∀ m p, ∀ c ∈ (DbState.step (S := S) ri s (.loadWithPersonal m p)).cmds, WFCache ri c) :=
   ⟨fun raw => wfCache_step_load ri s raw, fun m p => wfCache_step_loadWithPersonal ri s m p⟩
 
-/-- With well-formed caches and ASCII texts, the indexed tokens are the tokens of the raw fields
-    (keywords / tags joined by single spaces).  Not true in general at U+212A / U+0130, see below. -/
+/-- Lower-casing does not change the tokens of a text — for every byte string (valid UTF-8 or not)
+    in which no non-ASCII code point is lower-cased to an ASCII one.  In Go's tables exactly two code
+    points are: U+212A KELVIN SIGN (→ `k`) and U+0130 (→ `i`); the harness op `foldscan` re-derives
+    that list from the toolchain over all 1,114,112 code points on every run.  At those two the
+    statement is false (Boundary 2 below). -/
+theorem tokenize_toLower (ri : RuneInfo) (s : Bytes)
+    (h : ∀ r ∈ Utf8.runes s, 128 ≤ r → 128 ≤ ri.lower r) : tokenize (GoStr.toLower ri s) = tokenize s :=
+  Wtf.Search.tokenize_toLower ri s h
+
+/-- Keywords / tags never glue: the tokens of `strings.Join(xs, " ")` are the tokens of the elements. -/
+theorem tokenize_joinSp (xs : List Bytes) : tokenize (joinSp xs) = (xs.map tokenize).flatten :=
+  Wtf.Search.tokenize_joinSp xs
+
+/-- With well-formed caches, for commands free of the two exceptional code points, what the engine
+    indexes is the tokenisation of the raw command line and description and, element by element, of the
+    keywords and tags: "contains a content word" in the theorems above then speaks about the raw texts. -/
+theorem indexed_tokens (ri : RuneInfo) (c : Cmd) (hwf : WFCache ri c) (hn : NoAsciiFold ri c) :
+    c.cmdTokens = tokenize c.command ∧ c.descTokens = tokenize c.description ∧
+    c.keysTokens = (c.keywords.map tokenize).flatten ∧ c.tagsTokens = (c.tags.map tokenize).flatten :=
+  Wtf.Search.indexed_tokens ri c hwf hn
+
+/-- The ASCII special case in the joined form. -/
 theorem indexed_tokens_ascii (ri : RuneInfo) (c : Cmd) (hwf : WFCache ri c) (ha : AsciiCmd c) :
     c.cmdTokens = tokenize c.command ∧ c.descTokens = tokenize c.description ∧
     c.keysTokens = tokenize (joinSp c.keywords) ∧ c.tagsTokens = tokenize (joinSp c.tags) :=
@@ -303,7 +326,13 @@ example :
     ids (DbState.answer T0 (fun _ _ => []) s (bs "cc") o0) = [] ∧
     ids (search T0 s.cmds (bs "cc") o0) = [0] := by decide +kernel
 
-/-- **Boundary 2 (documented non-theorem).**  `indexed_tokens_ascii` does not extend to all texts:
+-- `NoAsciiFold` is satisfiable: a table without ASCII-folding entries (here: the empty one) meets it for every command
+example (c : Cmd) : NoAsciiFold {} c := by
+  intro s _ r _ hr
+  have : ¬ r < 128 := by omega
+  simp [RuneInfo.lower, RuneInfo.find, this]; exact hr
+
+/-- **Boundary 2 (documented non-theorem).**  `tokenize_toLower` / `indexed_tokens` do not extend to all texts:
     Go lower-cases U+212A KELVIN SIGN to the ASCII letter `k`, so the cached field tokenises to
     `["kb"]` while the raw field (where the sign is a separator and `b` is too short) has no token. -/
 example :
